@@ -441,7 +441,10 @@ class Hist:
         self.W = self.dmax + 1.0
         margins = [min(5, int(o.get("lifetime", 60)) - 1) if int(o.get("lifetime", 60)) >= 2 else 0.5 for o in sc["ops"].values()]
         # peering events may arrive later than the keep-alive margin of some operator: stale views look dead
-        self.late = self.dmax + 4 * LAT >= min(margins)
+        # (late delivery proper, or a reader whose own API calls are answered slowly: it works off its peering events - each
+        #  with a clean() or touch() - one by one and falls behind)
+        rmax = max([0.0] + [float(v) for v in (sc.get("response_latency") or {}).values()])
+        self.late = self.dmax + 4 * LAT + 3 * rmax >= min(margins)
         self._dl: list | None = None
         self._dl_keys: list = []
         self.t_fail: dict[int, float] = {}
@@ -672,12 +675,18 @@ def oracle_history(ctx: Ctx, sc: dict, tr: dict, full: bool = False) -> dict:
                                         if by == "itself" else
                                         "fresh record of a restarted operator deleted by a PEER's clean() aimed at the stale record of the same identity")})
                 elif killer and prev is not None and H.live(prev, h["t"]):
+                    # how old the killer's view was at least: the deleted record had been there since ... when the clean was issued
+                    k0 = k - 1
+                    while k0 > 0 and (H.ph[k0 - 1]["status"] or {}).get(i["identity"]) == prev:
+                        k0 -= 1
+                    life = int(prev.get("lifetime", 60))
+                    old_view = killer[0]["t_issue"] - H.ph[k0]["t"] >= (min(5, life - 1) if life >= 2 else 0.5) - 4 * LAT
                     ctx.oracle_fail(f"the fresh record of running operator {i['name']} (lastseen {prev.get('lastseen')}, lifetime "
                                     f"{prev.get('lifetime')}) was deleted at {h['t']} by {'itself' if killer[0]['who'] == i['who'] else killer[0]['who']}"
                                     f", which judged it dead from an older view",
                                     {"scenario": sc, "inc": i["inc"], "t": h["t"]},
                                     {"site": "peering.clean", "shape": "fresh record of a running operator deleted by a peer",
-                                     "regime": "late-delivery" if H.late else "timely"})
+                                     "regime": "late-delivery" if (H.late or old_view) else "timely"})
                 else:
                     fail(f"the record of running operator {i['name']} is absent from the peering object during [{h['t']}, {seg_end})",
                          "renewal: record of a running operator absent", inc=i["inc"], t=h["t"])
